@@ -105,6 +105,8 @@ def deserialize_hashmap_aug_node(cs: Slice, m: int, ret_dict: dict, extras: list
 
 def parse(slice: Slice, key_length: int, ret_dict: dict, prefix: bitarray) -> None:
     l, suffix = deserialize_hml(slice, key_length)
+    if l > key_length:
+        raise ValueError(f'dictionary label of {l} bits is longer than the remaining key ({key_length} bits)')
     prefix.extend(suffix)
     m = key_length - l
     deserialize_hashmap_node(slice, m, ret_dict, prefix.copy())
@@ -114,6 +116,8 @@ def parse_aug(slice: Slice, key_length: int, ret_dict: dict, extras: list, prefi
     if slice.type_ != CellTypes.ordinary:
         return None
     l, suffix = deserialize_hml(slice, key_length)
+    if l > key_length:
+        raise ValueError(f'dictionary label of {l} bits is longer than the remaining key ({key_length} bits)')
     prefix.extend(suffix)
     m = key_length - l
     deserialize_hashmap_aug_node(slice, m, ret_dict, extras, prefix.copy(), x_deserializer, y_deserializer)
